@@ -261,13 +261,16 @@ def execute(scn: dict) -> dict:
                 else:
                     probe("bare_lookup_found")
                     # was an undiscoverable supporter skipped?
-                    for n, p in md.reg[t]:
-                        if p is want:
-                            break
-                        if (not p.allows_discovery) and p.is_supported(op["method"]):
-                            probe("bare_lookup_skipped_undiscoverable")
-                            if n == "external":
-                                probe("external_not_discovered")
+                    try:
+                        for n, p in md.reg[t]:
+                            if p is want:
+                                break
+                            if (not p.allows_discovery) and p.is_supported(op["method"]):
+                                probe("bare_lookup_skipped_undiscoverable")
+                                if n == "external":
+                                    probe("external_not_discovered")
+                    except RecursionError:
+                        pass
                 if got is not want:
                     viol.append({"clause": "get-plugin-result", "sig": {"bare": "/" not in op["method"]},
                                  "detail": f"{where}: got {got!r}, reference {want!r} (registry order {[n for n, _ in md.reg[t]]})"})
